@@ -57,6 +57,12 @@ def plan(tier):
     LEFTS = corpus.docs(nmax, (1, "x"), ("a", "b"), sets=False)
     LEFTS = [d for d in LEFTS if d[0] == "m" or tier != "quick"
              or corpus.size(d) <= 3]
+    # twins: equal containers holding the same (interned) scalars, one of
+    # which alone is the merge point - or holds it
+    for inner in (("m", (("a", 1), ("b", True))), ("l", (1, 1)),
+                  ("m", (("a", ("l", (1, "x"))),))):
+        LEFTS.append(("m", (("a", inner), ("b", inner))))
+        LEFTS.append(("l", (inner, inner)))
     bounds = {"left_documents": len(LEFTS), "right_documents":
               [r[0] for r in RDOCS], "policy_vectors": len(POLS),
               "multi_target_paths": [paths.render(p, "/") for p in MULTI],
